@@ -79,6 +79,13 @@ def apply_op(B, m, op, st):
             return m      # renaming twice to the same name is rejected by chi
         m.set_parameter_names({'central.size': 'V'})
         st['rp'] = True
+        st['rp_name'] = 'V'
+    elif op == 'R2':
+        # a second rename, addressed by the currently published name
+        if not st.get('rp') or st.get('rp_name') == 'W':
+            return m
+        m.set_parameter_names({'V': 'W'})
+        st['rp_name'] = 'W'
     elif op == 'RO':
         if 'ro' in st:
             return m
@@ -93,7 +100,7 @@ def apply_op(B, m, op, st):
         # the first parameter and the compartment size (which RP renames)
         pub = m.parameters()
         m.enable_sensitivities(True, parameter_names=[
-            pub[0], 'V' if 'V' in pub else 'central.size'])
+            pub[0], [n for n in ('W', 'V', 'central.size') if n in pub][0]])
         st['sens'] = 'subset'
     elif op == 'S-':
         m.enable_sensitivities(False)
@@ -139,7 +146,7 @@ def reference(B, model_name, st):
     elif st.get('sens'):
         r.enable_sensitivities(True)
     if st.get('rp'):
-        r.set_parameter_names({'central.size': 'V'})
+        r.set_parameter_names({'central.size': st.get('rp_name', 'V')})
     if st.get('ro'):
         cur = r.outputs()
         if st['ro'] in cur:
@@ -432,6 +439,19 @@ def jobs(tier):
     deep = [['Ai', 'D2', 'S+', 'Ad'], ['Ad', 'D1', 'Co', 'Ai', 'D2'],
             ['Ai', 'RP', 'S+', 'C', 'S-'], ['Ad', 'D2', 'O2', 'RO', 'S+'],
             ['Ai', 'D1', 'S+', 'C', 'D2', 'S-']]
+    # a parameter renamed twice (the second time by its published name)
+    two = ['RP', 'R2', 'S+', 'Ss', 'C', 'O2', 'S-']
+    for n_ in (2, 3, 4):
+        for ops in itertools.product(two, repeat=n_):
+            if ops[0] != 'RP' or 'R2' not in ops:
+                continue
+            if n_ == 4 and q and (sum((i + 1) * two.index(o)
+                                      for i, o in enumerate(ops)) % 3):
+                continue
+            out.append(('history', 'case_history', dict(
+                model='one_compartment_pk_model', ops=list(ops)), FACADE))
+    deep += [['Ai', 'D1', 'RP', 'R2', 'Ss'], ['Ad', 'RP', 'S+', 'R2', 'C'],
+             ['Ai', 'RP', 'R2', 'D2', 'Co']]
     for o in deep:
         out.append(('history', 'case_history',
                     dict(model='one_compartment_pk_model', ops=o), FACADE))
